@@ -90,6 +90,14 @@ Release(c) ==
             /\ H([e |-> "LRelease", c |-> c, n |-> cnt[c] + 1, ok |-> FALSE])
     /\ UNCHANGED last
 
+\* a second candidate's create when the engine's own read inside the put-if-absent fails (an aborted point read on TiKV): the
+\* create fails and the record that is there stays
+CreateFaulty(c) ==
+    /\ rec # None
+    /\ cnt' = [cnt EXCEPT ![c] = @ + 1]
+    /\ H([e |-> "LCreate", c |-> c, n |-> cnt[c] + 1, ok |-> FALSE, fault |-> TRUE])
+    /\ UNCHANGED <<rec, last, wins, clock, tso>>
+
 \* a query about the lock (Describe / Identity: the leader-info endpoints, the revision syncer and the etcd proxy ask on their own
 \* goroutines, at any time): it reads, but what the candidate will compare against in its next Update stays what it last Got
 Describe(c) ==
@@ -97,7 +105,7 @@ Describe(c) ==
     /\ UNCHANGED <<rec, last, cnt, wins, clock, tso>>
 
 LockStep == /\ steps < MaxSteps /\ steps' = steps + 1
-            /\ \E c \in Cands : Get(c) \/ Create(c) \/ Update(c) \/ Release(c) \/ Describe(c)
+            /\ \E c \in Cands : Get(c) \/ Create(c) \/ Update(c) \/ Release(c) \/ Describe(c) \/ CreateFaulty(c)
             \* the old leader has stopped by the time another candidate takes the lock (C15's quantifier;
             \* two overlapping leaders are a different matter)
             /\ leader' = IF leader # "" /\ rec'.holder # leader THEN "" ELSE leader
